@@ -219,11 +219,31 @@ def _z3num(mv):
         return float('nan')
 
 
+def _algebraic_roots(x, ctx):
+    """Rewrite constant phasors that are roots of unity of order dividing 24 as cos + i sin with sqrt(2), sqrt(3) atoms
+    (an exact identity), so that cyclotomic and radical representations of the same number become comparable."""
+    from .core import root_of_unity_k, _HALF, _F0
+    out = Sx({}, ctx)
+    for (m, r, p), c in x.t.items():
+        if r in (_F0, _HALF):
+            out = out + Sx({(m, r, p): c}, ctx)
+            continue
+        cs = root_of_unity_k(r, ctx)
+        if cs is None:
+            out = out + Sx({(m, r, p): c}, ctx)
+            continue
+        if cs[0] != 0:
+            out = out + Sx({(m, _F0, p): c * cs[0]}, ctx)
+        if cs[1] != 0:
+            out = out + Sx({(m, _HALF, p): c * cs[1]}, ctx)
+    return out
+
+
 def check_equal(ctx, lhs, rhs, pathcond=None, timeout_s=60, want_smt2=False):
     return check_equal_many(ctx, [(lhs, rhs)], pathcond, timeout_s, want_smt2)
 
 
-def check_equal_many(ctx, pairs, pathcond=None, timeout_s=60, want_smt2=False):
+def check_equal_many(ctx, pairs, pathcond=None, timeout_s=60, want_smt2=False, algebraic_roots=False):
     """Decide  forall atoms: pre & path -> AND_i lhs_i == rhs_i  (complex Sx values).
 
     Each side is reduced to its components over (content monomial, symbolic phasor, cyclotomic basis element);
@@ -246,6 +266,8 @@ def check_equal_many(ctx, pairs, pathcond=None, timeout_s=60, want_smt2=False):
         rhs = Sx.const(rhs, ctx)
         if lhs is rhs:
             continue
+        if algebraic_roots:
+            lhs, rhs = _algebraic_roots(lhs, ctx), _algebraic_roots(rhs, ctx)
         M = common_M(lhs, rhs)
         cl = components(lhs, M)
         cr = components(rhs, M)
